@@ -26,7 +26,7 @@ REQUIRED = ["contract:Assertion.mvrs_to_data", "contract:Assertion.set_p_values"
             "data_values_checked", "u_checked:POLLING", "u_checked:CARD_COMPARISON", "u_checked:ONEAUDIT",
             "datum_equal_to_u_seen", "datum_zero_seen", "style_filter_checked", "cards_filtered_out_by_style",
             "test_u_checked", "positive_margin_assertions", "supermajority_u_assorter_not_1",
-            "stratum:uniform_pool_nonrepresentable_bound"]
+            "stratum:uniform_pool_nonrepresentable_bound", "u_at_test_time_checked", "stale_u_before_set_p_values"]
 ASSUMPTIONS = ["sample_threshold has been set by a draw (n_c >= 1) before mvrs_to_data is called under style",
                "the bound clause is asserted for every margin the simulator produces (also non-positive ones: the data are "
                "still inside [0,u])"]
@@ -94,6 +94,18 @@ def post_mvrs_to_data(rec, result, a, k, old):
                 return
 
 
+CALLS = {}   # id(NonnegMean object) -> (u the object held when its test method was entered, largest datum it was given)
+
+
+def pre_test_call(a, k):
+    self, x = a[0], a[1]
+    try:
+        CALLS[id(self)] = (self.u, float(np.max(x)) if len(x) else None)
+    except Exception:
+        pass
+    return None
+
+
 def post_set_p_values(rec, result, a, k, old):
     contests = k.get("contests", a[1] if len(a) > 1 else None)
     mvr = k.get("mvr_sample", a[2] if len(a) > 2 else None)
@@ -102,6 +114,14 @@ def post_set_p_values(rec, result, a, k, old):
         for name, asn in con.assertions.items():
             d, u = asn.mvrs_to_data(mvr, cvr)
             rec.count("test_u_checked")
+            seen = CALLS.get(id(asn.test))
+            if seen is not None:
+                rec.count("u_at_test_time_checked")
+                if seen[0] != u:
+                    rec.violation("c06.install", f"{con.audit_type}:test_ran_with_a_stale_u",
+                                  {"contest": c, "assertion": name, "u_when_the_test_ran": seen[0], "u_returned_with_the_data": u,
+                                   "largest_datum": seen[1]}, rec.current_case)
+                    return
             if asn.test.u != u:
                 rec.violation("c06.install", f"{con.audit_type}:test_u_not_installed", {"contest": c, "assertion": name,
                                                                                          "test.u": asn.test.u, "u": u},
@@ -140,6 +160,9 @@ def install(rec):
     contracts.wrap(Assertion, "set_p_values", rec, post=post_set_p_values)
     contracts.wrap(Assertion, "set_margin_from_cvrs", rec, post=post_set_margin)
     contracts.wrap(Assertion, "set_all_margins_from_cvrs", rec, post=post_set_all_margins)
+    from shangrla.core.NonnegMean import NonnegMean
+    for t in ("alpha_mart", "betting_mart", "kaplan_kolmogorov", "kaplan_markov", "kaplan_wald", "wald_sprt"):
+        contracts.wrap(NonnegMean, t, rec, pre=pre_test_call, post=(lambda rec, result, a, k, old: None), label=f"NonnegMean.{t}@c06")
 
 
 def plan(tier, seed):
@@ -205,6 +228,14 @@ def run_case(es, rec):
     if not ok:
         return
     m, c = ms
+    if rng.random() < 0.3:
+        # the bound the test object currently holds is stale (margins set by a route that does not write test.u, e.g.
+        # find_margins_from_tally, or changed since): set_p_values must install the right one BEFORE running the test
+        for con in sim.contests.values():
+            for asn in con.assertions.values():
+                asn.test.u = 1.0 if rng.random() < 0.7 else asn.test.u * 0.75
+        rec.count("stale_u_before_set_p_values")
+    CALLS.clear()
     with np.errstate(all="ignore"):
         ok, pmax = rec.guard("c06.call:set_p_values", sim.L["Assertion"].set_p_values, sim.contests, m, c)
     filtered = rec.counters.get("cards_filtered_out_by_style", 0) - before
